@@ -442,6 +442,10 @@ def run(prog, tier, extra=None):
         if not sources:
             res.sample({"rule": R3, "drain": bb_body.loc(s[1]), "verdict": "no failure exit after the drain without re-insertion"})
 
+    # "the pool holds only transactions that are valid against the ledger": nothing enters it around Transaction::validate
+    from ._include import include
+    include(res, prog, tier, extra, "c01", ["C01.who-may-insert"],
+            "every path into Mempool.transactions goes through Transaction::validate (also the re-adding of a refused own block's transactions)")
     res.explanation = (
         "Decides that the pool and its reservation index move together: each site removing pooled transactions releases their inputs in utxo_map on every success path "
         "(a loop over the removed transactions counts from its header; a retain-style closure may release inside), each inserting site reserves them, and bundle_block has no "
